@@ -1,7 +1,7 @@
 """C04 -- no lost updates (LanceTable: NoLostUpdate, NoDoubleImage)."""
 from checks import table_common as T
 
-FAMILIES = [{'name': 'rowconf', 'ids': [1, 2, 3, 4], 'vals': [5], 'maxv': 6, 'maxops': 2, 'maxops_thorough': 3, 'stable': [True, False], 'opkinds': ['delete', 'update', 'upsert', 'compact', 'checkout']}]
+FAMILIES = [{'name': 'rowconf', 'ids': [1, 2, 3, 4], 'vals': [5], 'maxv': 6, 'maxops': 2, 'maxops_thorough': 3, 'stable': [True, False], 'opkinds': ['delete', 'update', 'upsert', 'colupdate', 'compact', 'checkout']}]
 
 
 def run(prop, tier, replay):
